@@ -102,7 +102,8 @@ def _engine_case(R, n, symm, cells, tag, only, chunks=None, frames=True):
     nnz = len(keys)
     M = build.dense(n, pix, symm)
     off = np.searchsorted(b1, np.arange(n + 1))
-    reader = CSRReader({"bin1_id": b1, "bin2_id": b2, "count": v}, off)
+    # a second value column whose name sorts before the id columns (aux = -count)
+    reader = CSRReader({"aux": -v, "bin1_id": b1, "bin2_id": b2, "count": v}, off)
     Eng = FillLowerRangeQuery2D if symm else DirectRangeQuery2D
     chunks = sorted(set(chunks or (1, 2, 3, max(nnz, 1), nnz + 1, 10 ** 7)))
     wins = alpha.intervals(n)
@@ -110,7 +111,7 @@ def _engine_case(R, n, symm, cells, tag, only, chunks=None, frames=True):
     R.add("traces")
     inner_k = 0
     # (output form, chunk size) pairs: dict output for every chunk size, the other forms at one or two sizes
-    combos = [("dict", cs) for cs in chunks] + [("sparse", 2), ("dense", 3), ("pixdict+index", 1), ("pixdict+index", 10 ** 7)]
+    combos = [("dict", cs) for cs in chunks] + [("sparse", 2), ("dense", 3), ("dense:aux", 2), ("pixdict+index", 1), ("pixdict+index", 10 ** 7)]
     if frames:
         combos += [("frame", 10 ** 7), ("frame+index", 1)]
     rows_all = np.arange(nnz)
@@ -163,6 +164,10 @@ def _engine_case(R, n, symm, cells, tag, only, chunks=None, frames=True):
                         A = Eng(reader, "count", w, cs).to_array()
                         if A.shape != exp.shape or not np.array_equal(A, exp):
                             bad = ("dense!=slice-of-full", f"got={A.tolist()} want={exp.tolist()}")
+                    elif out == "dense:aux":
+                        A = Eng(reader, "aux", w, cs).to_array()
+                        if A.shape != exp.shape or not np.array_equal(A, -exp):
+                            bad = ("dense(second-value-column)!=slice-of-full", f"got={A.tolist()} want={(-exp).tolist()}")
                     elif out == "pixdict+index":
                         d = DirectRangeQuery2D(reader, "count", w, cs, return_index=True).get()
                         if not (np.array_equal(d["bin1_id"], b1[inwin]) and np.array_equal(d["bin2_id"], b2[inwin])
